@@ -264,6 +264,9 @@ func (v *Point) MultiScalarMult(scalars []*Scalar, points []*Point) *Point {
 	multiple := &projCached{}
 	tmp1 := &projP1xP1{}
 	tmp2 := &projP2{}
+	// The tables and digits are built, so the inputs are not needed anymore
+	// and v (which may alias one of them) can be reset to be the accumulator.
+	v.Set(NewIdentityPoint())
 	// Lookup-and-add the appropriate multiple of each input point
 	for j := range tables {
 		tables[j].SelectInto(multiple, digits[j][63])
